@@ -144,11 +144,11 @@ def gen_cases(tier, seed):
 
     alpha = ["a", "B", " ", "-", "\n", "\r\n", "<"]
     short = list(strings(alpha, 3))
-    texts = short + sample(strings(alpha, 5, 4), 500 if quick else 6000) + sample(strings(alpha, 7, 6), 300 if quick else 4000)
+    texts = short + sample(strings(alpha, 5, 4), 500 if quick else 4000) + sample(strings(alpha, 7, 6), 300 if quick else 3000)
     words = ["", "a", "Ba a-B", "a  B\na", "aaaa BBBB aa", "a-a-a-a B", "  aa  ", "aBaBaBaBaB", "a B a B a B a"]
 
     # ---- truncate
-    for s in sample(texts, 500 if quick else 4000) + words + ["foo bar baz qux", "a" * 9, "a b" * 4]:
+    for s in sample(texts, 500 if quick else 3000) + words + ["foo bar baz qux", "a" * 9, "a b" * 4]:
         for length in (3, 4, 6, 8):
             for kill in (False, True):
                 for leeway in (0, 2):
@@ -171,7 +171,7 @@ def gen_cases(tier, seed):
                              pos=["width", "first", "blank"] if first else ["width"],
                              kw={} if first else {"blank": "blank"}))
     # ---- center / trim / case maps / wordcount / striptags / urlencode
-    for s in sample(texts, 400 if quick else 4000) + words:
+    for s in sample(texts, 400 if quick else 2000) + words:
         if "\n" not in s and "\r" not in s:
             for w in (0, 3, 4, 7, 8):
                 add(case("center", s, {"width": w}, "v|center(width)", pos=["width"]))
@@ -186,7 +186,7 @@ def gen_cases(tier, seed):
         for f in ("title", "capitalize", "upper", "lower", "wordcount", "urlencode"):
             add(case(f, s))
     # ---- replace
-    for s in sample(texts, 300 if quick else 3000) + words:
+    for s in sample(texts, 300 if quick else 2000) + words:
         for old, new in (("a", "xx"), ("a", ""), ("aa", "a"), (" ", "-"), ("B\n", "<"), ("-", "--")):
             add(case("replace", s, {"old": old, "new": new, "count": -1}, "v|replace(old, new)", pos=["old", "new"]))
             for count in (0, 1, 2):
@@ -199,7 +199,7 @@ def gen_cases(tier, seed):
         for arg in ("x", "", "a B", 5, -3, True, None):
             add(case("format", fmt, {"arg": arg}, "v|format(arg)", pos=["arg"]))
     # ---- wordwrap
-    wtexts = sample([t for t in texts if "\r" not in t], 300 if quick else 3000) + words + \
+    wtexts = sample([t for t in texts if "\r" not in t], 300 if quick else 2000) + words + \
         ["aaaa-BBBB aa a-B", "a" * 11, "aa BB " * 4, "a-" * 6]
     for s in wtexts:
         for width in (1, 2, 3, 5, 6):
@@ -392,7 +392,7 @@ def run(ck):
         if only:
             cases = [c for c in cases if c["f"] in only]
         recs, nruns = observe_all(cases)
-        rejected = fu.tlc_validate(ck, "StrFiltersTrace", recs, batch=7000, parallel=4)
+        rejected = fu.tlc_validate(ck, "StrFiltersTrace", recs, batch=7000, parallel=4 if ck.tier == "quick" else 6)
         done, extra = mc.result()
     for r, label in done:
         ck.add_tlc(r, label)
